@@ -410,6 +410,11 @@ func CheckC19(e *Env) int {
 		v := vexpr{Expr: "float64(x) + 0.5", Type: "float64", Param: "x int", Local: true}
 		add(c13Program(nid(), []c13Case{{ID: 1, V: v, Class: "reject", ResShape: shape}}), "reject", "reject", fmt.Sprintf("value-mentions-parameter/result-shape=%d", shape))
 	}
+	// injector templates in unusual forms (methods, type parameters, alias-typed signatures):
+	// whichever way gen decides, check has to decide the same way
+	for _, p := range injectorTemplateForms() {
+		add(p, "either", "accept", "template-form/"+strings.TrimPrefix(p.Note, "template-form-"))
+	}
 	var progs []*Program
 	for _, c := range cases {
 		progs = append(progs, c.p)
@@ -447,7 +452,7 @@ func CheckC19(e *Env) int {
 			ctx = append(ctx, d.Text)
 		}
 		w := "gen:\n" + strings.Join(gt, "\n") + "\n\ncheck:\n" + strings.Join(ctx, "\n")
-		if genRejects != (c.wantGen == "reject") {
+		if c.wantGen != "either" && genRejects != (c.wantGen == "reject") {
 			// gen itself disagrees with the expectation: another property's business; no verdict here
 			rep.NoClaim++
 			continue
